@@ -123,6 +123,7 @@ PollDone(c) ==
 PollStutter(c) ==
   /\ \/ (st[c] = "waiting" /\ G("C07", ~Expired(c)))
      \/ (st[c] = "running" /\ gout[c] = "pending")
+     \/ (st[c] = "granted" /\ ~Enforce["C07"])      \* an unused grant is lost capacity: C07's business only
   /\ ev' = [res |-> "pending"] @@ Ev("poll", c)
   /\ UNCHANGED <<cfg, now, st, deadline, gid, gout, infl, ngate, lis>>
 
@@ -131,8 +132,9 @@ Drop(c) ==
   /\ st[c] \in {"created", "waiting", "granted", "running"}
   /\ \E s \in GrantOne([st EXCEPT ![c] = "cancelled"]) : st' = s
   /\ infl' = IF st[c] = "running" THEN infl \ {gid[c]} ELSE infl
-  /\ ev' = [e |-> "drop", c |-> c, t |-> now, ns |-> 0, nd |-> 0,
-            ndr |-> IF st[c] = "running" THEN 1 ELSE 0]   \* the inner future is dropped unconsumed
+  \* the inner future is dropped unconsumed (it stops counting as in flight: C01's business)
+  /\ ev' = (IF Enforce["C01"] THEN [ndr |-> IF st[c] = "running" THEN 1 ELSE 0] ELSE <<>>)
+           @@ [e |-> "drop", c |-> c, t |-> now, ns |-> 0, nd |-> 0]
   /\ UNCHANGED <<cfg, now, deadline, gid, gout, ngate, lis>>
 
 \* Nobody can make progress without time passing (urgent executor), and no slot idles
